@@ -17,11 +17,16 @@ THEOREMS = [P + t for t in [
     "C07_texttable_inverse", "C07_compucode_rejects", "C07_valid_iff", "C07_valid_physical_iff",
     "C07_valid_converts", "C07_image_valid_linear", "C07_roundtrip_linear", "C07_roundtrip_linear_phys",
     "C07_roundtrip_linear_tie_counterexample", "C07_build_scale_linear", "C07_monotone_can_encode",
+    "C07_tab_intp_image_valid",
 ]]
 RULE = ("descriptions = generated compu methods of the 8 categories x internal/physical types A_UINT32/A_INT32/A_FLOAT32/A_FLOAT64 "
         "(string types for TEXTTABLE/IDENTICAL) x 1-4 scales (TAB-INTP 2-5 points) x coefficients/denominators in small integers and "
         "halves x OPEN/CLOSED/INFINITE/absent limits, plus TEXTTABLEs around zero (every range in [-3,3] x every inverse value inside it; random "
-        "signed/float tables with inverse value, limit or default equal to 0 / 0.0 / empty text); values = whole 8-bit window of the internal type (thorough) or limit "
+        "signed/float tables with inverse value, limit or default equal to 0 / 0.0 / empty text), plus decimal coefficients (the doubles nearest to "
+        "tenths / hundredths / thirds: two-segment SCALE-LINEAR small scope = kink position x ordered slope pairs x value at the kink (0 and others) x "
+        "direction x limit types at the kink; random 1-4 segment LINEAR / SCALE-LINEAR and TAB-INTP with decimal samples); every well-formed "
+        "description is checked twice: built with the constructors, and written as ODX XML and read by the real loader (as COMPU-METHOD of a "
+        "DATA-OBJECT-PROP for numeric internal types, then single values also go through DataObjectProperty.encode_into_pdu / decode_from_pdu); values = whole 8-bit window of the internal type (thorough) or limit "
         "boundaries +-1 and random (quick), their physical images and neighbours, wrong Python types; one evaluated case = "
         "(description, operation, value); distinct = distinct (description, operation, value); non-trivial = the value is valid "
         "for the description and the operation returned a value")
@@ -29,7 +34,11 @@ TRUSTED = ["model lean/OdxVerif/Model/Compu.lean is hand-written; tied to odxtoo
            "(result | error class) of the four public operations on generated inputs",
            "Python float arithmetic is modelled exactly over Rat; cases where the double result differs from the exact rational "
            "are not sent to the model (counted as float_inexact) and are checked against the formula with a relative tolerance of 2^-40",
-           "harness/compu_lib.py Spec (fractions.Fraction) restates lean/OdxVerif/Spec/CompuExact.lean for the direct oracle"]
+           "harness/compu_lib.py Spec (fractions.Fraction) restates lean/OdxVerif/Spec/CompuExact.lean for the direct oracle",
+           "harness/compu_lib.py xml_of_desc / dop_xml (the harness' own ~60-line ODX emitter for COMPU-METHOD inside a DATA-OBJECT-PROP) "
+           "and coded_bytes / coded_value (big-endian 32/64-bit coding of the internal value) for the XML / DOP route",
+           "float results are accepted within 2^-40 relative to max(1, |result|, magnitude of the terms of the formula) — the rounding error of a "
+           "double evaluation is relative to its operands, not to a result that is their small difference"]
 ASSUMPTIONS = ["exceptions.strict_mode is True (the default)",
                "A_FLOAT32 and A_FLOAT64 values are Python doubles inside compumethods/ (narrowing to binary32 happens in the codec, not here)",
                "A_BYTEFIELD values and Java COMPUCODE execution are outside the model",
@@ -37,13 +46,37 @@ ASSUMPTIONS = ["exceptions.strict_mode is True (the default)",
                "the envelope of the direct oracle (they are still compared with the model)",
                "an absent limit of a LINEAR/SCALE-LINEAR/RAT-FUNC scale is unbounded (odxtools' reading); for TEXTTABLE a scale with a "
                "single limit stands for that single value (ODX 7.3.6.6.1)",
-               "the thresholds 1e-10 of the code are the rational 1/10^10 in the model"]
+               "the thresholds 1e-10 of the code are the rational 1/10^10 in the model",
+               "XML parsing is not modelled in Lean: the XML route is checked by the direct oracle (exact Spec), by reading the loaded "
+               "description back (clause xml-description) and against the constructor route (clause xml-equivalence)",
+               "a description whose limit value is the empty string has no XML form (an empty LOWER-LIMIT element has no text) and is "
+               "checked on the constructor route only"]
+
+# --- tie of kind (1) (task W15): Gen/CompuLimit.lean is regenerated from Limit.complies_to_upper / complies_to_lower of the current source
+# by the Python->Lean translator and proved equal to the hand-written Limit.compliesUpper / compliesLower (Proofs/CompuLimitGenEq.lean)
+LEAN_TARGETS = LEAN_TARGETS + ["OdxVerif.Props.C07Gen"]
+THEOREMS = THEOREMS + [P + t for t in ["gen_compliesUpper_eq", "gen_compliesLower_eq", "gen_complies_ok_iff", "C07_gen_limits_tie", "C07_gen_limits"]]
+TRUSTED = TRUSTED + ["translator harness/extract/py2lean.py + primitives lean/OdxVerif/Model/PyRt.lean for Limit.complies_to_upper / complies_to_lower "
+                     "(self._value / self.interval_type = the fields of the model's Limit, IntervalType members = constructors of IType; "
+                     "compare_odx_values is NOT translated: it stands for the model's compareOdx; odxraise is rendered for strict mode)"]
+
+
+def regen_compu_limit(ctx):
+    """Gen/CompuLimit.lean from the current source; Unsupported (source left the translator's subset) = broken obligation"""
+    import common
+    from extract import py2lean
+    py2lean.regenerate_limit(common.REPO, common.VERIF)
+
+
+GENERATORS = list(globals().get("GENERATORS", [])) + [regen_compu_limit]
 
 TOL = Fr(1, 2**40)
 
 
-def _close(x, q):
-    return abs(x - q) <= TOL * max(1, abs(q))
+def _close(x, q, mag=0):
+    """x equals the exact value q up to double rounding: 2^-40 relative to the result or — where the result is the small
+    difference of large terms — to the magnitude `mag` of the terms (the rounding error of a sum is relative to its operands)"""
+    return abs(x - q) <= TOL * max(1, abs(q), mag)
 
 
 def _float_noise(m, r):
@@ -66,34 +99,47 @@ def _kind(v):
     return {"i": "int", "f": "float", "s": "str"}[v[0]]
 
 
-def check_value_result(r, q, ty):
-    """compare an implementation result with the exact value q for target type `ty`.
-    -> 'exact' | 'inexact' (float rounding only) | 'bad'"""
+def check_value_result(r, q, ty, mag=0):
+    """compare an implementation result with the exact value q for target type `ty` (`mag`: magnitude of the terms of the
+    formula, see `_close`).  -> 'exact' | 'inexact' (float rounding only) | 'bad'"""
     if r[0] != "ok" or isinstance(r[1], bool) or r[1] is None:
         return "bad"
     v = r[1]
-    if isinstance(q, list):                      # a text / pass-through value
+    if isinstance(q, list):                      # a text / pass-through value (COMPU-INVERSE-VALUE, limit, default): a value
+        # of the target type — the integer 12 of an integer type is not the float 12.0, although 12 == 12.0 in Python
+        if L.is_num(q):
+            return "exact" if L.is_num(v) and L.admissible(ty, v) and L.veq(v, q) else "bad"
         return "exact" if v[0] == q[0] and L.veq(v, q) else "bad"
     if not L.is_num(v) or v[1] == "nan":
         return "bad"
     if ty in L.INT_TYPES:
         # nearest integer; a double that is off by rounding error next to a tie may pick the other neighbour
-        if v[0] != "i" or abs(Fr(v[1]) - q) > Fr(1, 2) + TOL * max(1, abs(q)):
+        if v[0] != "i" or abs(Fr(v[1]) - q) > Fr(1, 2) + TOL * max(1, abs(q), mag):
             return "bad"
         return "exact" if v[1] == L.round_half_even(q) else "inexact"
     if v[0] != "f":
         return "bad"
     x = L.frac(v)
-    return "exact" if x == q else "inexact" if _close(x, q) else "bad"
+    return "exact" if x == q else "inexact" if _close(x, q, mag) else "bad"
 
 
 class MethodCheck:
-    """direct oracle for one description on the real code; collects violations and the queries for the model"""
+    """direct oracle for one description on the real code; collects violations and the queries for the model.
+    route 'ctor': the object is built with the constructors; route 'xml': the description is written as ODX XML and read
+    by the real loader (a DATA-OBJECT-PROP for numeric internal types: then single values are also encoded / decoded
+    through the DOP)"""
 
-    def __init__(self, desc):
+    def __init__(self, desc, route="ctor", sp=None):
         self.desc = desc
-        self.sp = L.Spec(desc)
-        self.cm, self.build_err = L.try_build(desc)
+        self.route = route
+        self.sp = sp or L.Spec(desc)
+        self.dop = None
+        if route == "xml":
+            self.cm, self.dop, self.build_err = L.load_xml(desc)
+        else:
+            self.cm, self.build_err = L.try_build(desc)
+        self.mono = False       # (SCALE-)LINEAR, monotone and continuous in the sense of ODX 7.3.6.6.4 (exact arithmetic)
+        self.has_open = True
         self.viol = []          # (clause, features, observed, witness-extra, what)
         self.queries = []       # (op, val, impl result, forward?)
         self.stats = {}
@@ -105,6 +151,54 @@ class MethodCheck:
             except Exception:   # noqa: malformed descriptions
                 self.inj = False
             self.limits_exact = self._limits_exact()
+            if desc["cat"] in ("LINEAR", "SCALE-LINEAR"):
+                try:
+                    self.mono = bool(self.sp.invertible())
+                    self.has_open = any(l is not None and l["t"] == "OPEN" for s in self.sp.fwd for l in (s.get("lo"), s.get("hi")))
+                except Exception:  # noqa: malformed descriptions
+                    self.mono = False
+
+    def _terms(self, x):
+        """(magnitude of the terms of the forward formula at x, magnitude of the terms of the inverse formula at the image) for
+        linear scales and interpolation tables — the scale of the double rounding error of the forward evaluation resp. of
+        converting the image back (the inverse divides the error of the image by the slope); (0, 0) elsewhere"""
+        if not L.is_num(x):
+            return 0, 0
+        try:
+            cat = self.desc["cat"]
+            if cat in ("LINEAR", "SCALE-LINEAR"):
+                o, f, d = L.lin_coeffs(self.sp.scale_for(x)[1])
+                m = max(abs(o), abs(f * L.frac(x))) / abs(d)
+                return m, (m * abs(d) / abs(f) if f != 0 else 0)
+            if cat == "TAB-INTP":
+                return self._tab_terms(L.frac(x), [L.frac(s["lo"]["v"]) for s in self.sp.fwd], [L.frac(s["const"]) for s in self.sp.fwd])
+        except Exception:  # noqa
+            pass
+        return 0, 0
+
+    @staticmethod
+    def _tab_terms(x, xs, ys):
+        for k in range(len(xs) - 1):
+            x0, x1, y0, y1 = xs[k], xs[k + 1], ys[k], ys[k + 1]
+            if min(x0, x1) <= x <= max(x0, x1) and x0 != x1:
+                m = max(abs(y0), abs(y1), max(abs(x0), abs(x1)) * abs((y1 - y0) / (x1 - x0)))
+                return m, max(abs(x0), abs(x1), (m * abs((x1 - x0) / (y1 - y0)) if y1 != y0 else 0))
+        return 0, 0
+
+    def _terms_back(self, p):
+        """magnitude of the terms of the inverse formula at the physical value p (see `_terms`)"""
+        if not L.is_num(p):
+            return 0
+        try:
+            cat = self.desc["cat"]
+            if cat in ("LINEAR", "SCALE-LINEAR"):
+                o, f, d = L.lin_coeffs(self.sp.phys_scale_for(p)[1])
+                return max(abs(o), abs(L.frac(p) * d)) / abs(f) if f != 0 else 0
+            if cat == "TAB-INTP":
+                return self._tab_terms(L.frac(p), [L.frac(s["const"]) for s in self.sp.fwd], [L.frac(s["lo"]["v"]) for s in self.sp.fwd])[0]
+        except Exception:  # noqa
+            pass
+        return 0
 
     def _limits_exact(self):
         """are the physical limits the code derived (float arithmetic) the exact images?"""
@@ -147,6 +241,30 @@ class MethodCheck:
         except Exception:  # noqa: malformed description
             return False
 
+    def _extreme_sample_noise(self, x, p, mag):
+        """TAB-INTP: x is the internal sample whose physical sample y is the minimum / maximum of the table and the computed
+        image p is not y but within rounding noise of it"""
+        if self.desc["cat"] != "TAB-INTP" or not L.is_num(x) or not L.is_num(p) or p[1] == "nan":
+            return False
+        try:
+            ys = [L.frac(s["const"]) for s in self.sp.fwd]
+            for s, y in zip(self.sp.fwd, ys):
+                if L.frac(s["lo"]["v"]) == L.frac(x) and y in (min(ys), max(ys)):
+                    q = L.frac(p)
+                    return q != y and _close(q, y, mag) and not (min(ys) <= q <= max(ys))
+        except Exception:  # noqa
+            pass
+        return False
+
+    def _encodable_image(self, x):
+        if not self.has_open:
+            return True
+        try:
+            k = self.sp.scale_for(x)
+            return self.desc["pty"] in L.FLOAT_TYPES and L.lin_coeffs(k[1])[1] != 0
+        except Exception:  # noqa
+            return False
+
     def bump(self, k):
         self.stats[k] = self.stats.get(k, 0) + 1
 
@@ -183,7 +301,8 @@ class MethodCheck:
             if q is None:
                 self.bump("formula_undefined")
             else:
-                c = check_value_result(ri, q, d["pty"])
+                mag, mag_back = self._terms(x)
+                c = check_value_result(ri, q, d["pty"], mag)
                 self.bump("fwd_" + c)
                 if c == "bad":
                     self.v("forward-formula", [_kind(x), "raises" if ri[0] == "err" else "wrong-value"],
@@ -201,12 +320,22 @@ class MethodCheck:
                     back = "bad"
                     if rb[0] == "ok" and L.is_num(rb[1]) and L.is_num(x):
                         bq = L.frac(rb[1])
-                        back = "exact" if bq == L.frac(x) else "inexact" if (d["ity"] in L.FLOAT_TYPES and _close(bq, L.frac(x))) else "bad"
+                        back = "exact" if bq == L.frac(x) else "inexact" if (d["ity"] in L.FLOAT_TYPES and _close(bq, L.frac(x), mag_back)) else "bad"
                     elif rb[0] == "ok" and rb[1] is not None and L.veq(rb[1], x):
                         back = "exact"
                     self.bump("roundtrip_" + back)
                     kind = d["pty"] in L.INT_TYPES and "int-physical" or "real-physical"
-                    if tie and (rvp != ("ok", True) or back == "bad"):
+                    edge = not tie and self._extreme_sample_noise(x, p, mag)
+                    if edge and (rvp != ("ok", True) or back == "bad"):
+                        # one finding (known, fix proposed: fixes/c07-tabintp-clamp-to-samples.patch): the double evaluation of
+                        # y0 + (x-x0)(y1-y0)/(x1-x0) at the sample point with the smallest / largest physical sample misses the
+                        # sample by rounding noise, the image falls outside [min, max] of the physical samples
+                        self.bump("tabintp_extreme_sample_noise")
+                        self.v("image-valid", ["rounding-noise", "extreme-sample"], "declared-invalid",
+                               {"internal": x, "image": p, "valid": rvp, "back": rb},
+                               f"TAB-INTP sample point {L.pyval(x)!r} -> {L.pyval(p)!r}: off its sample by rounding noise, outside the range of "
+                               f"the physical samples (valid: {rvp}) -> {rb}")
+                    elif tie and (rvp != ("ok", True) or back == "bad"):
                         # one finding whatever the manifestation (image outside the OPEN limit / other value / error)
                         self.bump("rounding_tie_collisions")
                         self.v("roundtrip", tie + [kind], "does-not-convert-back", {"internal": x, "image": p, "valid": rvp, "back": rb},
@@ -219,6 +348,27 @@ class MethodCheck:
                         if back == "bad":
                             self.v("roundtrip", [kind], rb[1] if rb[0] == "err" else "wrong-value", {"internal": x, "image": p, "back": rb},
                                    f"internal {L.pyval(x)!r} -> physical {L.pyval(p)!r} -> {rb}")
+                # ---- a monotone continuous piecewise-linear method can always encode (also where it is not injective: flat
+                #      segments, integer physical types with small slopes).  Hypotheses of C07_image_valid_linear: real
+                #      physical type and non-zero slope of the responsible segment, or no OPEN limit anywhere.
+                elif self.mono and c != "bad" and self._encodable_image(x):
+                    p = ri[1]
+                    rvp, rb = L.call(cm, "vp", p), L.call(cm, "p2i", p)
+                    self.bump("monotone_images")
+                    if rvp != ("ok", True) or rb[0] != "ok":
+                        self.v("monotone-can-encode", [d["pty"] in L.INT_TYPES and "int-physical" or "real-physical"],
+                               rb[1] if rb[0] == "err" else "declared-invalid", {"internal": x, "image": p, "valid": rvp, "back": rb},
+                               f"monotone continuous {d['cat']}: image {L.pyval(p)!r} of valid internal value {L.pyval(x)!r}: "
+                               f"is_valid_physical_value = {rvp}, convert_physical_to_internal = {rb}")
+                # ---- the same single value through the DATA-OBJECT-PROP (xml route): decoding the coded value is the conversion
+                if self.dop is not None and c != "bad":
+                    raw = L.coded_bytes(d["ity"], x)
+                    if raw is not None:
+                        dd = L.dop_decode(self.dop, raw)
+                        self.bump("dop_decodes")
+                        if not L.same(dd, ri):
+                            self.v("dop-decode", [_kind(x)], dd[1] if dd[0] == "err" else "wrong-value", {"internal": x, "impl": dd, "compu": ri},
+                                   f"DataObjectProperty.decode_from_pdu({raw.hex()}) = {dd}, convert_internal_to_physical({L.pyval(x)!r}) = {ri}")
         self.queries.append(("vi", x, rv, True, nontrivial))
         self.queries.append(("i2p", x, ri, fwd_ok, nontrivial))
         return ri
@@ -252,8 +402,7 @@ class MethodCheck:
             if q is None:
                 self.bump("formula_undefined")
             else:
-                c = check_value_result(rb, q, d["ity"]) if not (isinstance(q, list) and L.is_num(q)) else \
-                    ("exact" if rb[0] == "ok" and rb[1] is not None and L.veq(rb[1], q) else "bad")
+                c = check_value_result(rb, q, d["ity"], self._terms_back(p))
                 self.bump("bwd_" + c)
                 if c == "bad":
                     self.v("backward-formula", [_kind(p), "raises" if rb[0] == "err" else "wrong-value"],
@@ -263,6 +412,18 @@ class MethodCheck:
                     fwd_ok = False
                 else:
                     nontrivial = True
+        # ---- the same single value through the DATA-OBJECT-PROP (xml route): a declared-valid physical value whose internal
+        #      value is valid and fits the coded type is encoded as that internal value
+        if self.dop is not None and rvp == ("ok", True) and rb[0] == "ok" and rb[1] is not None and not isinstance(rb[1], bool):
+            z = rb[1]
+            fits = L.admissible(d["ity"], z) and L.coded_bytes(d["ity"], z if d["ity"] in L.INT_TYPES else L.vf(L.frac(z))) is not None
+            if fits and L.call(cm, "vi", z) == ("ok", True):
+                e = L.dop_encode(self.dop, p)
+                self.bump("dop_encodes")
+                got = L.coded_value(d["ity"], e[1]) if e[0] == "ok" else None     # compared as values: -0.0 is 0.0
+                if got is None or not L.veq(got, z):
+                    self.v("dop-encode", [_kind(p)], e[1] if e[0] == "err" else "wrong-bytes", {"physical": p, "impl": e, "internal": z},
+                           f"DataObjectProperty.encode_into_pdu({L.pyval(p)!r}) = {e}, but convert_physical_to_internal gives {L.pyval(z)!r}")
         verified = nontrivial or rb[0] == "err"
         self.queries.append(("vp", p, rvp, self.limits_exact, nontrivial))
         self.queries.append(("p2i", p, rb, fwd_ok and (verified or _nice(p)), nontrivial))
@@ -346,7 +507,79 @@ def corpus():
                  "i2p": side([_sc(lo=_lim(vi(1)), hi=_lim(vi(1)), const=vs("one"))], vs("dflt"))}, [vi(1), vi(7)], [vs("one"), vs("zzz"), vs("dflt")]))
     out.append(({"cat": "TEXTTABLE", "ity": "A_UINT32", "pty": "A_UNICODE2STRING", "p2i": {"scales": [], "default": vi(9)},
                  "i2p": side([_sc(lo=_lim(vi(1)), hi=_lim(vi(1)), const=vs("one"))])}, [vi(1), vi(7)], [vs("one"), vs("zzz")]))
+    # round 6: decimal samples — the image of the sample point with the extreme physical sample misses it by rounding noise
+    #          (known finding tabintp-extreme-sample-rounding)
+    out.append(({"cat": "TAB-INTP", "ity": "A_UINT32", "pty": "A_FLOAT64", "p2i": None, "i2p": side([
+        _sc(lo=_lim(vi(84)), const=L.vd(Fr(173, 10))), _sc(lo=_lim(vi(110)), const=L.vd(Fr(-8, 10)))])},
+        [vi(84), vi(97), vi(110)], [L.vd(Fr(173, 10)), L.vd(Fr(-8, 10))]))
+    # round 6: SCALE-LINEAR with decimal coefficients, continuous in decimal arithmetic, zero crossing at the kink
+    out.append((L.decimal_scale_linear("A_UINT32", "A_FLOAT64", [0, 7, 255], [Fr(1, 10), Fr(3, 10)], 1, Fr(0), family="corpus"),
+                [vi(0), vi(6), vi(7), vi(8), vi(255)], []))
     return out
+
+
+def _diff_path(a, b, path=""):
+    """where two descriptions differ first (a field path such as i2p.scales.inv)"""
+    if isinstance(a, dict) and isinstance(b, dict):
+        for k in a:
+            if a.get(k) != b.get(k):
+                return _diff_path(a.get(k), b.get(k), path + "." + k if path else k)
+    if isinstance(a, list) and isinstance(b, list) and len(a) == len(b) and a and isinstance(a[0], dict):
+        for x, y in zip(a, b):
+            if x != y:
+                return _diff_path(x, y, path)
+    return path or "?"
+
+
+def xml_description_ok(mx):
+    """what the loader stored is what the document says (attribute read-back; a failure to read is data)"""
+    try:
+        back = L.desc_of_cm(mx.cm)
+    except Exception as e:  # noqa: the attributes are read from the code under test
+        return False, "unreadable:" + type(e).__name__, None
+    want = L.normalise(mx.desc)
+    return back == want, _diff_path(want, back), back
+
+
+def xml_route(ctx, desc, mc, ivals, plist, seen):
+    """the same description through the XML loader (and the DOP): direct oracle, read-back of the description, and
+    equality with the constructor route on every (operation, value)"""
+    cat = desc["cat"]
+    mx = MethodCheck(desc, route="xml", sp=mc.sp)
+    ctx.count("xml_methods")
+    key = json.dumps(L.normalise(desc), sort_keys=True)
+    if mx.cm is None:
+        ctx.case((key, "xml-load"), nontrivial=False)
+        ctx.violate("xml-load", [cat], L.canon_err(mx.build_err), {"desc": desc, "route": "xml"},
+                    f"a {cat} description the constructor accepts is rejected by the XML loader: {mx.build_err}")
+        return
+    if mx.dop is not None:
+        ctx.count("xml_methods_in_dop")
+    ok, where, back = xml_description_ok(mx)
+    if not ok:
+        ctx.violate("xml-description", [cat, where], "differs", {"desc": desc, "route": "xml", "loaded": back},
+                    f"the {cat} method read from XML is not the described one: field {where}")
+    for x in ivals:
+        mx.internal(x)
+    for p in plist:
+        mx.physical(p)
+    n_diff = 0
+    for (op, v, r, _, nt), (op2, v2, r2, _, _) in zip(mc.queries, mx.queries):
+        ctx.case((key, "xml:" + op, v[0], str(v[1])), nontrivial=nt)
+        if (op, v) == (op2, v2) and r != r2 and not n_diff:
+            n_diff += 1
+            ctx.violate("xml-equivalence", [cat, op], "differs", {"desc": desc, "route": "xml", "op": op, "value": v, "ctor": r, "xml": r2},
+                        f"{L.METHOD[op]}({L.pyval(v)!r}) = {r2} on the method read from XML, {r} on the constructed one")
+    for k, n in mx.stats.items():
+        if k.startswith("dop_"):
+            ctx.count(k, n)
+    for clause, feats, obs, extra, what in mx.viol:
+        sig = (clause, tuple(feats), str(obs))
+        if sig in seen:
+            continue
+        seen.add(sig)
+        ctx.violate(clause, feats + ["via-xml"], L.canon_err(obs) if isinstance(obs, str) else str(obs),
+                    {"desc": desc, "route": "xml", **extra}, "read from XML: " + what)
 
 
 def run_method(ctx, desc, ivals, pvals_fn, fam, pending):
@@ -365,7 +598,10 @@ def run_method(ctx, desc, ivals, pvals_fn, fam, pending):
         ctx.case((json.dumps(desc, sort_keys=True), "build"), nontrivial=False)
         pending.append((desc, [("vi", L.vi(0), ("build", mc.build_err), True, False)], fam))
         return
-    back = L.desc_of_cm(mc.cm)
+    try:
+        back = L.desc_of_cm(mc.cm)
+    except Exception as e:  # noqa: the attributes are read from the code under test
+        back = {"unreadable": type(e).__name__}
     if back != L.normalise(desc):
         ctx.disagree("desc_of_cm", {"desc": desc}, json.dumps(L.normalise(desc))[:500], json.dumps(back)[:500])
     if mc.inj:
@@ -382,7 +618,8 @@ def run_method(ctx, desc, ivals, pvals_fn, fam, pending):
             mc.queries += [("vi", x, rv, True, False), ("i2p", x, ri, True, False)]
             images.append(ri[1])
     imgs = [v for v in images if isinstance(v, list)]
-    for p in pvals_fn(imgs):
+    plist = list(pvals_fn(imgs))
+    for p in plist:
         if oracle:
             mc.physical(p)
         else:
@@ -401,6 +638,10 @@ def run_method(ctx, desc, ivals, pvals_fn, fam, pending):
             continue
         seen.add(sig)
         ctx.violate(clause, feats, L.canon_err(obs) if isinstance(obs, str) else str(obs), {"desc": desc, **extra}, what)
+    if oracle and L.xml_expressible(desc):
+        xml_route(ctx, desc, mc, ivals, plist, seen)
+    else:
+        ctx.count("xml_not_expressible_or_malformed")
     pending.append((desc, mc.queries, fam))
 
 
@@ -480,6 +721,23 @@ def run(ctx):
         if len(pending) >= 400:
             flush_model(ctx, pending)
     flush_model(ctx, pending)
+    # (d3) decimal coefficients (round 6): doubles that are not the decimals they stand for, so that the two formulas of a
+    #      continuous method differ at the common boundary by rounding noise.  Own random stream.
+    drng = ctx.sub_rng("decimal")
+    for desc in L.decimal_small_scope(big):
+        ctx.count("decimal_kinks_with_double_noise", L.kink_noise(desc))
+        ivals = L.internal_values(drng, desc, False)
+        run_method(ctx, desc, ivals, lambda imgs, d=desc: L.physical_values(drng, d, imgs, False), desc["family"], pending)
+        if len(pending) >= 400:
+            flush_model(ctx, pending)
+    for n in range(3000 if big else 400):
+        desc = L.gen_decimal(drng) if n % 4 else L.gen_decimal_tab(drng)
+        ctx.count("decimal_kinks_with_double_noise", L.kink_noise(desc))
+        ivals = L.internal_values(drng, desc, big and n % 4 == 0)
+        run_method(ctx, desc, ivals, lambda imgs, d=desc: L.physical_values(drng, d, imgs, False), desc["family"], pending)
+        if len(pending) >= 400:
+            flush_model(ctx, pending)
+    flush_model(ctx, pending)
     # (e) malformed stream: constructor rejections and foreign errors, correspondence only
     for n in range(1500 if big else 300):
         desc = L.gen_malformed(rng)
@@ -503,14 +761,19 @@ def replay(ctx, data):
                     interval_type=None if lim["t"] is None else IntervalType(lim["t"]))
         f, g = (L.lower_ok, "complies_to_lower") if w["side"] == "lower" else (L.upper_ok, "complies_to_upper")
         return getattr(obj, g)(L.pyval(x)) == f(lim, x)
-    mc = MethodCheck(w["desc"])
+    clause = data["signature"]["clause"]
+    mc = MethodCheck(w["desc"], w.get("route", "ctor"))
     if mc.cm is None:
         return False
+    if clause == "xml-description":
+        return xml_description_ok(mc)[0]
+    if clause == "xml-equivalence":
+        other = MethodCheck(w["desc"])
+        return other.cm is not None and L.call(mc.cm, w["op"], w["value"]) == L.call(other.cm, w["op"], w["value"])
     if "internal" in w:
         mc.internal(w["internal"])
     if "physical" in w:
         mc.physical(w["physical"])
     if "image" in w:
         mc.physical(w["image"])
-    clause = data["signature"]["clause"]
     return not any(v[0] == clause for v in mc.viol)
